@@ -60,6 +60,7 @@ static const char *SEQ[] = {"mcb_sva_signed", "mcb_sva_fvs_trees", "mcb_sva_iso_
 static const char *ALL6[] = {"mcb_sva_signed", "mcb_sva_fvs_trees", "mcb_sva_iso_trees",
                              "mcb_sva_signed_tbb", "mcb_sva_fvs_trees_tbb", "mcb_sva_iso_trees_tbb"};
 
+static int g_maxM = 1000000;
 static int g_maxN = 12;
 
 // ------------------------------------------------------------------ C01 / C02
@@ -69,6 +70,7 @@ static Case gen_c0102() {
     c.wtype = coin(35) ? "int" : "double";
     GenOpts o;
     o.maxN = g_maxN;
+    o.maxM = g_maxM;
     c.g = gen_graph_raw(o, c.wtype == "int" ? WDom::ExactInt : WDom::Exact);
     return c;
 }
@@ -144,6 +146,7 @@ static Case gen_c07e() {
     c.wtype = coin(35) ? "int" : "double";
     GenOpts o;
     o.maxN = g_maxN;
+    o.maxM = g_maxM;
     c.g = gen_graph_raw(o, c.wtype == "int" ? WDom::ExactInt : WDom::Exact);
     static const int ws[] = {1, 2, 8};
     c.workers = ws[pick(0, 2)];
@@ -243,7 +246,6 @@ static GraphSpec apply_transform(const GraphSpec &g, const std::string &kind, lo
 }
 
 static const char *XF[] = {"perm", "perm", "perm", "isolated", "pendant", "bridge", "union", "subdivide", "subdivide", "scale"};
-static int g_maxM = 1000000;
 
 static Case gen_c08() {
     Case c;
@@ -257,6 +259,7 @@ static Case gen_c08() {
     if (g_maxN > 60) {
         // large class: size drawn near the top, density bounded by maxM
         o.maxN = g_maxN;
+        o.maxM = g_maxM;
         c.g = gen_graph_raw(o, dom);
         for (int tries = 0; tries < 3 && c.g.n < g_maxN / 3; tries++) c.g = gen_graph_raw(o, dom);
     } else c.g = gen_graph_raw(o, dom);
@@ -359,6 +362,7 @@ static Case gen_c09() {
     c.wtype = "double";
     GenOpts o;
     o.maxN = g_maxN;
+    o.maxM = g_maxM;
     c.g = gen_graph_raw(o, WDom::Inexact);
     return c;
 }
